@@ -104,6 +104,18 @@ func genC03(tier string, seed uint64) *simkit.Plan {
 				k := r.Range(1, min(3, members))
 				st.User = r.Perm(members)[:k]
 			}
+			if r.Chance(0.08) {
+				// what the adder submits: a pin that already carries the allocations its
+				// blocks were sent to, with the factors the user gave - often none (0/0)
+				st.Op = "pinpreset"
+				st.Allocs = r.Perm(members)[:r.Range(1, min(4, members))]
+				st.User = nil
+				if r.Bool() {
+					st.RMin, st.RMax = 0, 0
+				} else {
+					st.RMin, st.RMax = -1, -1
+				}
+			}
 		case 3:
 			st.Op = "exclude" // PeerRemove(target): re-pins what target holds with target excluded
 			st.Target = r.Intn(members)
@@ -154,6 +166,8 @@ func execC03(plan *simkit.Plan, run *simkit.Run) {
 			run.Ev("sim", "seed", "cid%d rf=%d/%d allocs=%v", s.Cid%len(w.cids), s.RMin, s.RMax, s.Allocs)
 		case "pin", "blockallocate":
 			w.allocCall(n0, client, s)
+		case "pinpreset":
+			w.presetCall(n0, client, s)
 		case "exclude":
 			w.excludeCall(n0, s.Target%members)
 		}
@@ -236,6 +250,41 @@ func (w *world) allocCall(n *node, client *rpc.Client, s Step) {
 	}
 	w.run.Ev("client", s.Op, "cid%d rf=%d/%d user=%v -> allocs=%v err=%v", ci, rmin, rmax, s.User, w.idxs(allocs), err)
 	w.judgeAlloc(s.Op, ci, f, rmin, rmax, nil, s.User, allocs, err, identical, before, s.Op == "pin")
+}
+
+// presetCall: the Cluster.Pin endpoint given a pin with allocations already set
+// (the adder does this). With positive factors those are taken as they are - the
+// decision was BlockAllocate's - but when the factors, the configured defaults
+// filled in, are -1 the stored list is empty all the same.
+func (w *world) presetCall(n *node, client *rpc.Client, s Step) {
+	ctx := context.Background()
+	ci := s.Cid % len(w.cids)
+	rmin, rmax := s.RMin, s.RMax
+	if rmin == 0 {
+		rmin = n.cfg.ReplicationFactorMin
+	}
+	if rmax == 0 {
+		rmax = n.cfg.ReplicationFactorMax
+	}
+	pin := api.PinWithOpts(w.cids[ci], api.PinOptions{ReplicationFactorMin: s.RMin, ReplicationFactorMax: s.RMax, Name: s.Name})
+	pin.Allocations = w.peersOf(s.Allocs)
+	w.run.Op()
+	var out api.Pin
+	err := client.CallContext(ctx, "", "Cluster", "Pin", pin, &out)
+	w.run.Ev("client", "pinpreset", "cid%d rf=%d/%d (given %d/%d) preset=%v -> err=%v", ci, rmin, rmax, s.RMin, s.RMax, s.Allocs, err)
+	if err != nil || rmin != -1 || rmax != -1 {
+		w.run.Probe("preset_allocations_not_everywhere")
+		return
+	}
+	w.run.Probe("preset_allocations_with_factor_minus_one")
+	stored, gerr := w.sh.State().Get(ctx, w.cids[ci])
+	if gerr != nil {
+		w.run.Violate("C03/pin_not_stored", "", "Pin(cid%d) returned nil but the pinset has no entry", ci)
+		return
+	}
+	if len(stored.Allocations) != 0 || len(out.Allocations) != 0 {
+		w.run.Violate("C03/everywhere_not_empty", "preset", "pin cid%d submitted with allocations %v and factors %d/%d (effective -1/-1): replication factor -1 must store an empty allocation list, stored %v, returned %v", ci, s.Allocs, s.RMin, s.RMax, w.idxs(stored.Allocations), w.idxs(out.Allocations))
+	}
 }
 
 func (w *world) excludeCall(n *node, target int) {
